@@ -13,10 +13,21 @@ package dnssvc
 // decides.
 
 import (
+	"bytes"
 	"context"
+	"crypto/ecdsa"
+	"crypto/elliptic"
+	crand "crypto/rand"
+	"crypto/tls"
+	"crypto/x509"
+	"crypto/x509/pkix"
+	"encoding/binary"
 	"fmt"
+	"io"
+	"math/big"
 	"math/rand"
 	"net"
+	"net/http"
 	"net/netip"
 	"strings"
 	"sync"
@@ -38,6 +49,7 @@ import (
 	"github.com/AdguardTeam/golibs/netutil"
 	"github.com/miekg/dns"
 	"github.com/prometheus/client_golang/prometheus"
+	"github.com/quic-go/quic-go"
 )
 
 type c07Resp struct {
@@ -239,6 +251,44 @@ func TestVerifC07Stack(t *testing.T) {
 	}
 	defer func() { _ = srv.Shutdown(context.Background()) }()
 	addr := srv.LocalUDPAddr().String()
+	// DoH and DoQ servers in front of the same handler with the same recycling disposer: there the
+	// response is normalised and serialised AFTER the handler chain has returned
+	tlsConf := c07TLSConfig(t)
+	dohTLS := tlsConf.Clone()
+	dohTLS.NextProtos = dnsserver.NextProtoDoH
+	doh := dnsserver.NewServerHTTPS(dnsserver.ConfigHTTPS{TLSConfDefault: dohTLS,
+		ConfigBase: dnsserver.ConfigBase{Name: "c07doh", Addr: "127.0.0.1:0", Handler: h, Disposer: cloner, Network: dnsserver.NetworkTCP,
+			RequestContext: newContextConstructor(5 * time.Second)}})
+	if err = doh.Start(context.Background()); err != nil {
+		t.Fatal(err)
+	}
+	defer func() { _ = doh.Shutdown(context.Background()) }()
+	dohAddr := doh.LocalTCPAddr().String()
+	doqTLS := tlsConf.Clone()
+	doqTLS.NextProtos = dnsserver.NextProtoDoQ
+	doq := dnsserver.NewServerQUIC(dnsserver.ConfigQUIC{TLSConfig: doqTLS,
+		ConfigBase: dnsserver.ConfigBase{Name: "c07doq", Addr: "127.0.0.1:0", Handler: h, Disposer: cloner,
+			RequestContext: newContextConstructor(5 * time.Second)}})
+	if err = doq.Start(context.Background()); err != nil {
+		t.Fatal(err)
+	}
+	defer func() { _ = doq.Shutdown(context.Background()) }()
+	doqAddr := doq.LocalUDPAddr().String()
+	clientTLS := &tls.Config{InsecureSkipVerify: true}
+	dohClients := map[string]*http.Client{}
+	var dohMu sync.Mutex
+	dohClient := func(local string) *http.Client {
+		dohMu.Lock()
+		defer dohMu.Unlock()
+		if c, ok := dohClients[local]; ok {
+			return c
+		}
+		d := &net.Dialer{LocalAddr: &net.TCPAddr{IP: net.ParseIP(local)}, Timeout: 3 * time.Second}
+		c := &http.Client{Timeout: 5 * time.Second, Transport: &http.Transport{DialContext: d.DialContext, TLSClientConfig: clientTLS.Clone(),
+			ForceAttemptHTTP2: true, MaxIdleConnsPerHost: 4}}
+		dohClients[local] = c
+		return c
+	}
 
 	names := []string{"one.c07.example.", "two.c07.example.", "three.c07.example.", "blocked1.c07.example.", "blocked2.c07.example.",
 		"four.c07.example.", "Five.C07.example."}
@@ -251,6 +301,35 @@ func TestVerifC07Stack(t *testing.T) {
 		idok, qok      bool
 	}
 	exchange := func(j *job, id uint16) (*dns.Msg, bool, bool) {
+		if j.netw == "doh" || j.netw == "doq" {
+			m := new(dns.Msg).SetQuestion(j.name, j.qt)
+			m.Id = id
+			if j.do {
+				m.SetEdns0(4096, true)
+			}
+			b, _ := m.Pack()
+			var raw []byte
+			if j.netw == "doh" {
+				resp, herr := dohClient(j.client).Post("https://"+dohAddr+"/dns-query", "application/dns-message", bytes.NewReader(b))
+				if herr != nil {
+					return nil, false, false
+				}
+				raw, _ = io.ReadAll(resp.Body)
+				_ = resp.Body.Close()
+				if resp.StatusCode != http.StatusOK {
+					return nil, false, false
+				}
+			} else {
+				raw = c07DoQ(doqAddr, j.client, b)
+			}
+			r := new(dns.Msg)
+			if raw == nil || r.Unpack(raw) != nil {
+				return nil, false, false
+			}
+			qok := len(r.Question) == 1 && r.Question[0].Name == j.name && r.Question[0].Qtype == j.qt
+			// DoQ clients send ID 0 on the wire by convention; here the real ID is kept and must be echoed
+			return r, r.Id == id, qok
+		}
 		cl := &dns.Client{Net: j.netw, Timeout: 3 * time.Second}
 		la := net.ParseIP(j.client)
 		if j.netw == "tcp" {
@@ -287,7 +366,7 @@ func TestVerifC07Stack(t *testing.T) {
 		jobs := make([][]*job, nclients)
 		for c := 0; c < nclients; c++ {
 			for i := 0; i < per; i++ {
-				jobs[c] = append(jobs[c], &job{client: fmt.Sprintf("127.0.0.%d", 10+c), netw: []string{"udp", "udp", "tcp"}[rng.Intn(3)],
+				jobs[c] = append(jobs[c], &job{client: fmt.Sprintf("127.0.0.%d", 10+c), netw: []string{"udp", "udp", "tcp", "doh", "doh", "doq"}[rng.Intn(6)],
 					name: names[rng.Intn(len(names))], qt: types[rng.Intn(len(types))], do: rng.Intn(4) == 0})
 			}
 		}
@@ -315,4 +394,59 @@ func TestVerifC07Stack(t *testing.T) {
 			}
 		}
 	}
+}
+
+// c07DoQ performs one DoQ exchange from the given local address.
+func c07DoQ(addr, local string, payload []byte) []byte {
+	ctx, cancel := context.WithTimeout(context.Background(), 4*time.Second)
+	defer cancel()
+	pc, err := net.ListenUDP("udp", &net.UDPAddr{IP: net.ParseIP(local)})
+	if err != nil {
+		return nil
+	}
+	defer pc.Close()
+	ra, err := net.ResolveUDPAddr("udp", addr)
+	if err != nil {
+		return nil
+	}
+	conn, err := quic.Dial(ctx, pc, ra, &tls.Config{InsecureSkipVerify: true, NextProtos: dnsserver.NextProtoDoQ}, &quic.Config{})
+	if err != nil {
+		return nil
+	}
+	defer func() { _ = conn.CloseWithError(0, "") }()
+	stream, err := conn.OpenStreamSync(ctx)
+	if err != nil {
+		return nil
+	}
+	msg := binary.BigEndian.AppendUint16(nil, uint16(len(payload)))
+	msg = append(msg, payload...)
+	if _, err = stream.Write(msg); err != nil {
+		return nil
+	}
+	_ = stream.Close()
+	_ = stream.SetReadDeadline(time.Now().Add(3 * time.Second))
+	all, _ := io.ReadAll(stream)
+	if len(all) < 2 || len(all) < 2+int(binary.BigEndian.Uint16(all)) {
+		return nil
+	}
+	return all[2 : 2+int(binary.BigEndian.Uint16(all))]
+}
+
+func c07TLSConfig(t testing.TB) *tls.Config {
+	key, err := ecdsa.GenerateKey(elliptic.P256(), crand.Reader)
+	if err != nil {
+		t.Fatal(err)
+	}
+	tmpl := &x509.Certificate{
+		SerialNumber: big.NewInt(1), Subject: pkix.Name{CommonName: "c07.example"},
+		NotBefore: time.Now().Add(-time.Hour), NotAfter: time.Now().Add(24 * time.Hour),
+		KeyUsage: x509.KeyUsageDigitalSignature | x509.KeyUsageCertSign, IsCA: true,
+		ExtKeyUsage: []x509.ExtKeyUsage{x509.ExtKeyUsageServerAuth}, BasicConstraintsValid: true,
+		DNSNames: []string{"c07.example"}, IPAddresses: []net.IP{net.IPv4(127, 0, 0, 1)},
+	}
+	der, err := x509.CreateCertificate(crand.Reader, tmpl, tmpl, &key.PublicKey, key)
+	if err != nil {
+		t.Fatal(err)
+	}
+	return &tls.Config{Certificates: []tls.Certificate{{Certificate: [][]byte{der}, PrivateKey: key}}, MinVersion: tls.VersionTLS12}
 }
